@@ -40,7 +40,9 @@ Proof.
   assert (H : forall s, (forall k, k < length acts -> eval gsem en (nth k acts PyNone) = Some (VB (A (s + k)))) ->
                         map (eval gsem en) acts = map (fun k => Some (VB (A k))) (seq s (length acts))).
   { induction acts as [|x acts IH]; intros s H; simpl; [reflexivity|].
-    rewrite (H 0) by (simpl; lia). rewrite Nat.add_0_r. f_equal.
+    assert (H0 : eval gsem en x = Some (VB (A s))).
+    { specialize (H 0). simpl in H. rewrite Nat.add_0_r in H. apply H. lia. }
+    rewrite H0. f_equal.
     apply IH. intros k Hk. replace (S s + k) with (s + S k) by lia. apply (H (S k)). simpl; lia. }
   intros HA. apply (H 0). exact HA.
 Qed.
@@ -89,6 +91,9 @@ Proof.
   rewrite Hwf. simpl. f_equal. f_equal. apply connected_b_ext.
   intros v. apply nth_map_seq. exact Hout.
 Qed.
+
+ Lemma Zeqb_nat d k : (Z.of_nat d =? Z.of_nat k)%Z = (d =? k).
+Proof. destruct (Nat.eqb_spec d k); [apply Z.eqb_eq|apply Z.eqb_neq]; lia. Qed.
 
 (* ------------------------------------------------------------------------ *)
 (* specification lemmas                                                      *)
@@ -274,7 +279,7 @@ Section PrimShape.
       replace ((degree g A i =? 1) || (degree g A i =? 2))
         with ((Z.of_nat (degree g A i) =? 1)%Z || (Z.of_nat (degree g A i) =? 2)%Z).
       - apply eval_b_imp; [reflexivity|]. apply eval_b_or; (apply eval_i_eq; [apply eval_dg|reflexivity]).
-      - f_equal; (destruct (Nat.eqb_spec (degree g A i) _); [apply Z.eqb_eq|apply Z.eqb_neq]; lia).
+      - change 1%Z with (Z.of_nat 1). change 2%Z with (Z.of_nat 2). rewrite !Zeqb_nat. reflexivity.
     Qed.
 
     Lemma holds_p2 i :
@@ -284,14 +289,14 @@ Section PrimShape.
       replace (degree g A i =? 0) with (Z.of_nat (degree g A i) =? 0)%Z.
       - apply eval_b_imp; [apply eval_b_not; reflexivity|].
         apply eval_i_eq; [apply eval_dg|reflexivity].
-      - destruct (Nat.eqb_spec (degree g A i) 0); [apply Z.eqb_eq|apply Z.eqb_neq]; lia.
+      - change 0%Z with (Z.of_nat 0). apply Zeqb_nat.
     Qed.
 
     Lemma eval_ep i : eval gsem_c06 en' (ep i) = Some (VB (degree g A i =? 1)).
     Proof.
       unfold ep. replace (degree g A i =? 1) with (Z.of_nat (degree g A i) =? 1)%Z.
       - apply eval_i_eq; [apply eval_dg|reflexivity].
-      - destruct (Nat.eqb_spec (degree g A i) 1); [apply Z.eqb_eq|apply Z.eqb_neq]; lia.
+      - change 1%Z with (Z.of_nat 1). apply Zeqb_nat.
     Qed.
 
     Lemma eval_fo : eval gsem_c06 en' fo = Some (VB (existsb (eP base en') (seq 0 (nv g)))).
